@@ -210,6 +210,8 @@ var shapeDocs = map[string]struct {
 	"seqmaps":    {"- a: LEAFA\n  b: LEAFB\n- a: LEAFC\n  b: LEAFD\n", []string{"LEAFA", "LEAFB", "LEAFC", "LEAFD"}},
 	"mapwithseq": {"a: [LEAFA, LEAFB]\nb: LEAFC\n", []string{"LEAFA", "LEAFB", "LEAFC"}},
 	"xmlattrseq": {"a:\n  +@id: [LEAFA, LEAFB]\n  b: LEAFC\n", []string{"LEAFA", "LEAFB", "LEAFC"}},
+	"seqmapskey": {"- ? [LEAFK, 2]\n  : LEAFA\n  b: LEAFB\n", []string{"LEAFK", "LEAFA", "LEAFB"}}, // the first map has a key that is a sequence
+	"specials":   {"- .nan\n- .inf\n- LEAFA\n", []string{"LEAFA"}},
 }
 
 func checkC19(rc *Run) error {
